@@ -129,7 +129,7 @@ def sobol(t, mask, marginals=None, normalize=True):
             m = torch.ones([t.shape[n]])
         else:
             m = marginals[n]
-        m /= torch.sum(m)  # Make sure each marginal sums to 1
+        m = m / torch.sum(m)  # Make sure each marginal sums to 1 (without touching the caller's array)
         if am.Us[n] is None:
             if am.cores[n].dim() == 3:
                 am.cores[n][:, 1:, :] *= m[None, :, None]
